@@ -292,3 +292,23 @@ V("c20-exit-conditional", "C20", CN, "    def __exit__(self, exc_type, exc_val, 
 V("c20-inherit-dropped", "C20", CN, "        self.console.push_theme(self.theme, inherit=self.inherit)", "        self.console.push_theme(self.theme)", "R20.5")
 V("c20-parse-first", "C20", CN, "            style = self._theme_stack.get(name)\n            if style is None:\n                style = Style.parse(name)", "            style = Style.parse(name)", "R20.6")
 V("c20-benign-local", "C20", TH, "        self._entries.append(styles)\n        self.get = self._entries[-1].get", "        entries = self._entries\n        self._entries.append(styles)\n        self.get = self._entries[-1].get", None)
+
+# ---- C13 additions (R13.7-R13.9) ----------------------------------------------
+V("c13-slice-by-cells", "C13", CE, "    cell_size = cell_len(text)\n    if cell_size == total:\n        return text\n", "    cell_size = cell_len(text)\n    if cell_size == total:\n        return text\n    if cell_size == len(text):\n        return text[:total]\n", "R13.7")
+V("c13-crop-char-slice", "C13", SG, "                    text = set_cell_size(text, length - line_length)", "                    text = text[: length - line_length]", "R13.7")
+V("c13-crop-loop-ge", "C13", CE, "    while excess > 0 and character_sizes:", "    while excess >= 0 and character_sizes:", "R13.8")
+V("c13-crop-loop-double-pop", "C13", CE, "        excess -= pop()\n", "        excess -= pop()\n        pop()\n", "R13.8")
+V("c13-crop-prefix-off", "C13", CE, "    text = text[: len(character_sizes)]", "    text = text[: len(character_sizes) + 1]", "R13.8")
+V("c13-chop-ge", "C13", CE, "        if total_size + size > max_size:", "        if total_size + size >= max_size:", "R13.9")
+V("c13-chop-drops-char", "C13", CE, "            total_size += size\n            append(character)", "            total_size += size\n            if size:\n                append(character)", "R13.9")
+V("c13-chop-no-reset", "C13", CE, "            total_size = size\n", "            total_size = 0\n", "R13.9")
+V("c13-search-upper-len", "C13", CE, "    upper_bound = len(_table) - 1", "    upper_bound = len(_table)", "R13.2")
+V("c13-shortcut-raw-width", "C13", CE, "    _table = CELL_WIDTHS\n    lower_bound = 0", "    first_start, first_end, first_width = CELL_WIDTHS[1]\n    if first_start <= codepoint <= first_end:\n        return first_width\n    _table = CELL_WIDTHS\n    lower_bound = 0", "R13.2")
+V("c13-benign-chop-rename", "C13", CE, "        character, size = pop()\n        if total_size + size > max_size:\n            lines.append([character])\n            append = lines[-1].append\n            total_size = size\n        else:\n            total_size += size\n            append(character)", "        char, width = pop()\n        if total_size + width > max_size:\n            lines.append([char])\n            append = lines[-1].append\n            total_size = width\n        else:\n            total_size += width\n            append(char)", None)
+# ---- C14 additions -------------------------------------------------------------
+V("c14-collapse-guard-removed", "C14", TB, "        if any(wrapable):\n            while total_width and excess_width > 0:", "        if True:\n            while total_width and excess_width > 0:", "R14.5")
+V("c14-search-upper-len", "C14", CE, "    upper_bound = len(_table) - 1", "    upper_bound = len(_table)", "R14.6")
+# ---- C10 additions -------------------------------------------------------------
+V("c10-liverender-store-unpadded", "C10", LR, "        width, height = self._shape\n        lines = _Segment.set_shape(lines, width, height)", "        width, height = self._shape\n        self._shape = (width, shape[1])\n        lines = _Segment.set_shape(lines, width, height)", "R10.2")
+# ---- C20 additions -------------------------------------------------------------
+V("c20-push-cached-merge", "C20", TH, "        self._entries.append(styles)\n        self.get = self._entries[-1].get", "        self._entries.append(self._entries[-1] if not theme.styles else styles)\n        self.get = self._entries[-1].get", "R20.2")
